@@ -52,13 +52,14 @@ def unwindset(nthr, nstep, nest):
 
 def job(nthr, pat, down=0, late=0, tier="quick"):
     nest = "n" in pat
-    defs = {"NTHR": nthr, "NSTEP": len(pat), "PAT": '"%s"' % pat, "DOWN": down, "LATE": late, "V_NO_FAULTS": None}
+    defs = {"NTHR": nthr, "NSTEP": len(pat), "PAT": '"%s"' % pat, "DOWN": down, "LATE": late, "V_NO_FAULTS": None,
+            "TPT_MSG_COUNT_TO_READ": 3}   # LIBLCB_VERIF hook: 3-packet read buffer (the pipe model holds <= 2)
     if nest:
         defs["NEST"] = None
     return {
         "name": "uni-t%d-%s-d%d-l%d" % (nthr, pat, down, late), "src": "uni.c", "defs": defs,
         "unwind": 3, "unwindset": unwindset(nthr, len(pat), nest), "solver": "cadical",
-        "flags": ["--no-malloc-may-fail"], "timeout": 400 if tier == "quick" else 1500,
+        "flags": ["--no-malloc-may-fail"], "timeout": 400 if tier == "quick" else 1500, "mem_gb": 16 if nest else (8 if tier == "quick" else 12),
         "shape": "threads=%d(+virtual) steps=%s down-mask=%d starting-mask=%d queue-capacity=2" % (nthr, pat, down, late),
         "desc": "return code / direct call / exactly once / right thread / per-sender order, for every actor, destination, "
                 "flag set and write() outcome of the pattern",
@@ -68,7 +69,7 @@ def job(nthr, pat, down=0, late=0, tier="quick"):
 def jobs(tier):
     out = []
     quick = [(2, "sssr", 0, 0), (2, "ssrs", 0, 0), (2, "srsr", 0, 0), (2, "svsr", 0, 0), (2, "ssvs", 0, 0),
-             (2, "ssrs", 2, 0), (2, "ssrs", 0, 1), (2, "snrs", 0, 0)]
+             (2, "ssrs", 2, 0), (2, "ssrs", 0, 1)]
     if tier == "quick":
         return [job(*q) for q in quick]
     seen = set()
@@ -82,7 +83,7 @@ def jobs(tier):
         if q not in seen:
             seen.add(q)
             out.append(job(*q, tier=tier))
-    for q in [(2, "sssr", 1, 0), (2, "svsv", 2, 0), (2, "srsr", 0, 2), (2, "svsr", 0, 3), (2, "nsrs", 0, 0), (2, "svnr", 0, 0),
+    for q in [(2, "snrs", 0, 0), (2, "sssr", 1, 0), (2, "svsv", 2, 0), (2, "srsr", 0, 2), (2, "svsr", 0, 3), (2, "nsrs", 0, 0), (2, "svnr", 0, 0),
               (3, "ssrs", 0, 0), (3, "svsr", 0, 0), (3, "ssrs", 4, 0), (3, "ssvr", 0, 2),
               (2, "ssrsr", 0, 0), (2, "sssrs", 0, 0), (2, "svsvs", 0, 0)]:
         if q not in seen:
